@@ -4,6 +4,7 @@
 //! the projected state with what the specification computed).
 mod common;
 mod c10;
+mod c19;
 mod c20;
 
 fn main() {
@@ -17,6 +18,8 @@ fn main() {
     match (args[0].as_str(), args[1].as_str()) {
         ("C10", "replay") => c10::replay(rest),
         ("C10", "drive") => c10::drive(rest),
+        ("C19", "replay") => c19::replay(rest),
+        ("C19", "drive") => c19::drive(rest),
         ("C20", "replay") => c20::replay(rest),
         ("C20", "drive") => c20::drive(rest),
         _ => {
